@@ -81,7 +81,7 @@ def run(ctx):
     for w in range(1, maxw + 1):
         for sg in (False, True):
             cases.append({"w": w, "signed": sg, "cur_step": 1 if w <= (4 if ctx.quick() else 6) else 3})
-    for w in ([7, 8, 10] if ctx.quick() else [9, 10, 12, 16]):
+    for w in ([7, 8, 10] if ctx.quick() else [9, 10, 11, 12]):   # (every integer of [-2^(w+1), 2^(w+1)] is stored: 16 bits is too much for one Coq literal)
         for sg in (False, True):
             cases.append({"w": w, "signed": sg, "cur_step": max(1, (1 << w) // 24) + 1})
     enum_cases = [{"enum": [3, 7, -2]}, {"enum": [0, 1]}, {"enum": rnd.sample(range(-50, 50), 5)}]
